@@ -16,13 +16,25 @@
      - this is closed under sequencing: every decoder that is a tree of those
        patterns (continuations are arbitrary functions of what was read);
      - the identifier and length readers are such trees.
-   PARTIAL: that every composite routine of bcder (process_next_value, skip,
-   capture, the typed readers, OctetStringSource) is such a tree is shown for
-   the header readers only; for the rest the tie is the correspondence stream
+     - so are the conditional tag read Tag::take_from_if (request(1), slice()[0],
+       further peeks, advance only on a match), LimitedSource::exhausted, the head
+       checks of Integer and Unsigned (the latter looks at slice() again WITHOUT a
+       new request and stays within the grant), Primitive::with_slice_all, and on
+       top of them Constructed::process_next_value around any closure that is a
+       tree, every typed leaf reader, skip/skip_opt/skip_one/skip_all, the generic
+       reader, and every program of the language of Model/Prog.v that neither
+       captures nor runs a raw Source script, from Mode::decode to the final
+       end-of-input check (delivery_free).
+   PARTIAL: capture (CaptureSource, treated under C11) and OctetStringSource are
+   not shown to be such trees; for them the tie is the correspondence stream
    c07.sources, which runs every program through contract-checking sources of
-   8 delivery kinds and compares with the Level-B model. *)
+   10 delivery kinds and compares with the Level-B model. The Level-A reading of a
+   composite routine is the tree built from the access patterns; that the code
+   performs exactly these accesses is read off the source and exercised by the
+   stream c07.grants for the patterns it can reach through the public API. *)
 Require Import BV.Model.Base BV.Model.SrcB BV.Model.Length BV.Model.Tag BV.Model.Source.
-Require Import BV.Proofs.SourceP.
+Require Import BV.Model.Int BV.Model.Content BV.Model.Prog.
+Require Import BV.Proofs.SourceP BV.Proofs.TagIfP BV.Proofs.PatP.
 
 (* a request never grants more than there is, never takes a grant back, grants
    at least min(wanted, available), and decides "enough?" like Level B *)
@@ -92,6 +104,72 @@ Theorem C07_example :
   fst (runA (fun _ _ av => av) p (mkRaw [7; 9; 4] 0 None 0)) = Ok (7, 9).
 Proof. exact delivery_example. Qed.
 
+(* ---- composite routines ---- *)
+(* Tag::take_from_if as the code does it, for every grant policy *)
+Theorem C07_take_from_if : forall pol e r, raw_ok r ->
+  fst (tagif_A pol e r) = fst (tag_take_from_if e (absA r)) /\
+  absA (snd (tagif_A pol e r)) = snd (tag_take_from_if e (absA r)) /\ raw_ok (snd (tagif_A pol e r)).
+Proof. exact tagif_refines. Qed.
+Theorem C07_take_from_if_within_grant : forall pol e r, raw_ok r -> fst (tagif_A pol e r) <> Panic.
+Proof. exact tagif_no_ungranted_access. Qed.
+Theorem C07_exhausted : forall pol r, raw_ok r ->
+  fst (exhausted_A pol r) = fst (src_exhausted (absA r)) /\
+  absA (snd (exhausted_A pol r)) = snd (src_exhausted (absA r)) /\ raw_ok (snd (exhausted_A pol r)).
+Proof. exact exhausted_refines. Qed.
+Theorem C07_look : forall pol n r, raw_ok r ->
+  fst (look_A pol n r) = fst (look_B n (absA r)) /\
+  absA (snd (look_A pol n r)) = snd (look_B n (absA r)) /\ raw_ok (snd (look_A pol n r)).
+Proof. exact look_refines. Qed.
+Theorem C07_with_slice_all : forall pol adv r, raw_ok r ->
+  fst (slice_then_A pol adv r) = fst (slice_then_B adv (absA r)) /\
+  absA (snd (slice_then_A pol adv r)) = snd (slice_then_B adv (absA r)) /\ raw_ok (snd (slice_then_A pol adv r)).
+Proof. exact slice_then_refines. Qed.
+(* Unsigned::check_head: the second look at slice() needs no second request *)
+Theorem C07_unsigned_head : forall pol r, raw_ok r ->
+  fst (uns_check_head_A pol r) = fst (uns_check_head (absA r)) /\
+  absA (snd (uns_check_head_A pol r)) = snd (uns_check_head (absA r)) /\ raw_ok (snd (uns_check_head_A pol r)).
+Proof. exact uns_head_refines. Qed.
+
+(* a routine is delivery-free when it is the reading of a tree of access patterns: then it returns the same
+   from every legal source, leaves the same octets and limit, and touches nothing ungranted *)
+Theorem C07_delivery_free_unfold : forall T (m : M T), delivery_free m <->
+  exists p : pat T,
+    (forall s, m s = runB p s) /\
+    (forall pol r, raw_ok r ->
+       fst (runA pol p r) = fst (m (absA r)) /\ absA (snd (runA pol p r)) = snd (m (absA r)) /\
+       raw_ok (snd (runA pol p r))) /\
+    (forall pol1 pol2 r1 r2, raw_ok r1 -> raw_ok r2 -> absA r1 = absA r2 ->
+       fst (runA pol1 p r1) = fst (runA pol2 p r2) /\
+       absA (snd (runA pol1 p r1)) = absA (snd (runA pol2 p r2))) /\
+    (forall pol r, raw_ok r -> fst (runA pol p r) = Panic -> fst (m (absA r)) = Panic).
+Proof. exact (fun T m => conj (fun H => H) (fun H => H)). Qed.
+
+Theorem C07_process_next_value : forall T c expected (op : tag -> content -> M (T * content)),
+  (forall t ct, PatM (op t ct)) -> delivery_free (process_next_value c expected op).
+Proof. exact @pnv_delivery_free. Qed.
+Theorem C07_typed_readers : forall ty c e,
+  delivery_free (leaf_reader ty c e) /\ delivery_free (mandatory (leaf_reader ty c e)).
+Proof. exact typed_readers_delivery_free. Qed.
+Theorem C07_skip_and_generic_read : forall fuel c flt_ n,
+  delivery_free (skip_opt fuel c flt_) /\ delivery_free (skip_mand fuel c flt_) /\
+  delivery_free (skip_one fuel c) /\ delivery_free (skip_all fuel c n) /\ delivery_free (read_all fuel c).
+Proof. exact skip_read_delivery_free. Qed.
+Theorem C07_plain_programs : forall fuel ps c lg, forallb plain_p ps = true ->
+  delivery_free (exec fuel ps c lg).
+Proof. exact plain_programs_delivery_free. Qed.
+Theorem C07_plain_decode : forall fuel ps m, forallb plain_p ps = true ->
+  delivery_free (decode_src m (fun c => exec fuel ps c [])).
+Proof. exact plain_decode_delivery_free. Qed.
+Theorem C07_plain_example : forallb plain_p ex_prog = true /\
+  fst (decode_src Der (fun c => exec 20 ex_prog c []) (pure_src [48; 6; 2; 1; 5; 1; 1; 255] None))
+  = Ok [1; 1; 48; 1; 1; 2; 5; 1; 1; 1; 1]%Z.
+Proof. exact plain_example. Qed.
+Theorem C07_take_from_if_example :
+  fst (tagif_A (fun _ _ _ => 0) (159, 129, 72, 0) (mkRaw [159; 129; 72; 1; 42] 0 (Some 5) 0)) = Ok (Some false) /\
+  fst (tagif_A (fun _ _ av => av) (159, 129, 72, 0) (mkRaw [159; 129; 72; 1; 42] 0 (Some 5) 0)) = Ok (Some false) /\
+  rdata (snd (tagif_A (fun _ _ _ => 0) (159, 129, 72, 0) (mkRaw [159; 129; 72; 1; 42] 0 (Some 5) 0))) = [1; 42].
+Proof. exact tagif_example. Qed.
+
 Print Assumptions C07_request_contract.
 Print Assumptions C07_take_u8.
 Print Assumptions C07_take_opt_u8.
@@ -104,3 +182,17 @@ Print Assumptions C07_no_ungranted_access.
 Print Assumptions C07_headers.
 Print Assumptions C07_ungranted_access_is_a_panic.
 Print Assumptions C07_example.
+Print Assumptions C07_take_from_if.
+Print Assumptions C07_take_from_if_within_grant.
+Print Assumptions C07_exhausted.
+Print Assumptions C07_look.
+Print Assumptions C07_with_slice_all.
+Print Assumptions C07_unsigned_head.
+Print Assumptions C07_delivery_free_unfold.
+Print Assumptions C07_process_next_value.
+Print Assumptions C07_typed_readers.
+Print Assumptions C07_skip_and_generic_read.
+Print Assumptions C07_plain_programs.
+Print Assumptions C07_plain_decode.
+Print Assumptions C07_plain_example.
+Print Assumptions C07_take_from_if_example.
